@@ -18,7 +18,7 @@ ASSUMPTIONS = [
     "corruption is restricted to 1-2 bit flips before stuffing (guaranteed CRC-detectable)",
     "RST/RSTACK frames used to recover a failed link are not duplicated by the line (reset handshake is C09/C11)",
 ]
-PROBES = ["repeat_on_nak", "repeat_on_timeout", "send_raised", "send_cancelled", "caller_cancelled_in_flight", "host_link_failed",
+PROBES = ["two_links_one_process", "repeat_on_nak", "repeat_on_timeout", "send_raised", "send_cancelled", "caller_cancelled_in_flight", "host_link_failed",
           "ncp_link_failed", "host_frmnum_wrapped", "ncp_frmnum_wrapped", "window_2", "window_3", "link_reset_after_failure",
           "sched.batch", "sched.reorder", "retx_after_cover_same_instant"]
 CLAUSES = ("C01.",)
@@ -38,6 +38,8 @@ def plan(tier):
         sweeps.append(("prefix", {"K": K, "drop_first": ["h2n", 5], "n_host": 1, "n_ncp": 3, "ncp_start": 15.0, "cancel_den": 0, "sched": False, "recover": False}))
         sweeps.append(("prefix", {"K": K, "drop_first": ["h2n", 5], "n_host": 2, "n_ncp": 3, "ncp_start": 15.0, "cancel_den": 0, "sched": False}))
         sweeps.append(("prefix", {"K": K, "drop_first": ["n2h", 5], "n_host": 3, "n_ncp": 1, "host_start": 15.0, "cancel_den": 0, "sched": False, "recover": False}))
+    for d_ in ("A", "B"):
+        sweeps.append(("twin", {"drop": d_, "n": 3, "sched": False}))
     return {
         "sweeps": sweeps,
         "exhaustive": f"all 5^d fault assignments to the first d wire frames (d={d} for K=1, {d-1} for K=2,3), 3 host + 2 NCP payloads, benign schedule",
@@ -48,7 +50,94 @@ def plan(tier):
     }
 
 
+def run_twin(params, tape, detail=False):
+    """Two ASH links in one process (two radios), both with a DATA frame of the same number in flight; one link loses its frame, the other
+    link's acknowledgement arrives: the bookkeeping of one link never completes (or fails) a send of the other."""
+    import asyncio
+    import hashlib
+
+    import bellows.ash as ash
+
+    from .. import refash as R
+    from ..ashmon import WireMonitor
+    from ..line import Line, SimTransport
+    from ..loop import SimLoop, TimeShim, run_sim
+
+    loop = SimLoop(None, max_iters=200_000)
+    ash.time = TimeShim(loop)
+    viol, links = [], {}
+    drop_first = params.get("drop", "B")
+
+    def make(name):
+        log = []
+        plan = e1.DirectionalPlan(tape, "h2n", 1 if name == drop_first else 0)
+        line = Line(loop, tape, plan, log=log, chunking=False, nodup_kinds=("rst", "rstack"))
+        line._latency = lambda: 0.001
+        mon = WireMonitor(loop, payload_ok=None)
+        upper = e1.HostUpper(loop, mon, log)
+        proto = ash.AshProtocol(upper)
+
+        def ncp_emit(frame_wo_crc, kind):
+            raw = R.with_crc(frame_wo_crc)
+            line.send("n2h", b"", raw, R.wire_raw(raw), kind)
+
+        ncp = R.NcpEndpoint(loop, tape, ncp_emit, K=1, log=log)
+
+        def host_write(data):
+            fr = mon.on_host_write(data)
+            ncan = 0
+            while data[ncan] == R.CAN:
+                ncan += 1
+            raw, _ok = R.unstuff(data[ncan:-1])
+            line.send("h2n", data[:ncan], raw, data, fr[0] if fr else "garbage")
+
+        tr = SimTransport(loop, host_write, log=log)
+        line.h2n.sink = ncp.feed
+        line.n2h.sink = lambda chunk: (mon.on_host_read(chunk), tr.feed(chunk))
+        tr.attach(proto)
+        links[name] = {"proto": proto, "ncp": ncp, "mon": mon, "log": log, "out": {}}
+
+    make("A")
+    make("B")
+
+    async def send(name, i):
+        L = links[name]
+        p = name.encode() + bytes([i]) + b"-payload"
+        try:
+            await L["proto"].send_data(p)
+            L["out"][i] = ("ok", L["ncp"].delivered.count(p))
+        except Exception as e:  # noqa: BLE001
+            L["out"][i] = ("raised", type(e).__name__)
+
+    async def main():
+        n = params.get("n", 3)
+        for i in range(n):
+            # both links submit at the same instant: the same frame number is in flight on both
+            await asyncio.gather(send("A", i), send("B", i))
+        await asyncio.sleep(1.0)
+
+    outcome, val = run_sim(loop, main())
+    if outcome != "done":
+        viol.append(("C01.live", "sim-" + outcome, f"twin links: simulation ended with {outcome}: {val!r}"))
+    for name, L in links.items():
+        for i, o in sorted(L["out"].items()):
+            p = name.encode() + bytes([i]) + b"-payload"
+            cnt = L["ncp"].delivered.count(p)
+            if o[0] == "ok" and (o[1] != 1 or cnt != 1):
+                viol.append(("C01.once", "twin-h2n-at-return", f"two links in one process, link {drop_first} loses its first frame: send {i} on link {name} returned normally, "
+                             f"its NCP had received the payload {o[1]} time(s) at that moment ({cnt} in the end)"))
+            elif o[0] == "raised":
+                viol.append(("C01.live", "twin-send-raised", f"two links in one process: send {i} on link {name} raised {o[1]} although only one frame of one link was lost"))
+        viol.extend(v for v in L["mon"].viol if v[0].startswith("C01."))
+    sig = hashlib.blake2b(repr(("twin", drop_first, [(n_, sorted(L["out"].items())) for n_, L in links.items()])).encode(), digest_size=8).digest()
+    return {"viol": viol, "faults": {"h2n.drop": 1}, "probes": {"two_links_one_process": 1}, "vt": loop.time(), "iters": loop.iters, "sig": sig, "nontrivial": True,
+            "digest": hashlib.sha256(repr([(n_, L["log"]) for n_, L in links.items()]).encode()).hexdigest()[:16],
+            "sample": {"scenario": "twin", "drop": drop_first, "outcomes": {n_: {str(k): str(v) for k, v in L["out"].items()} for n_, L in links.items()}}}
+
+
 def run(scenario, params, tape, detail=False):
+    if scenario == "twin":
+        return run_twin(params, tape, detail)
     return e1.run(params, tape, detail=detail)
 
 LEVEL_TEXT = ("seeded search over fault sequences and schedules (millions of runs per hour) with the real AshProtocol against an "
